@@ -195,7 +195,7 @@ func fnHRandField(ctx *cmdContext, args map[string]any) (output respValue, err e
 	if options != nil {
 		count, hasCount := options.mustGet("count").(int64)
 		if hasCount {
-			if count < -(1<<31) || count > (1<<31) {
+			if count < -(1<<20) || count > (1<<20) {
 				output.data = respErrorString("ERR value is out of range")
 				return
 			}
